@@ -251,110 +251,6 @@ theorem sim_aload (n : Nat) (dst : Nat) (dt : CSem.Ty) (arr : Nat) (t : CSem.Ty)
     · cases hwt
   · cases hex
 
-/-- `a[idx] = e;` -/
-theorem sim_astore (n : Nat) (arr : Nat) (t : CSem.Ty) (cnt xb : Nat) (idx e : Expr)
-    (hex : exec T.S.cs T.P (n + 1) s (.astore arr t cnt xb idx e) = some out)
-    (hfr : frag T.P T.cnts (.astore arr t cnt xb idx e) = true)
-    (hwt : Stmt.wt T.vtys T.ret lp.1 lp.2 nd (.astore arr t cnt xb idx e) = some nd') (hp : Pos T c nd pre)
-    (hext : Ext T (funcstmt T.S.cs brk cont (.astore arr t cnt xb idx e) c).ctx)
-    (hits : T.S.its = pre ++ (funcstmt T.S.cs brk cont (.astore arr t cnt xb idx e) c).items ++ post)
-    (inv : SInv T.M0 T.S.cs T.cnts T.σ T.vtys s env M) :
-    Post T lp brk cont (T.at env M pre)
-      (pre ++ (funcstmt T.S.cs brk cont (.astore arr t cnt xb idx e) c).items)
-      (funcstmt T.S.cs brk cont (.astore arr t cnt xb idx e) c).ctx out := by
-  simp only [exec, Option.bind_eq_some_iff] at hex
-  obtain ⟨v, hevv, iv, hev, hex⟩ := hex
-  split at hex
-  · rename_i hiv
-    simp only [Option.some.injEq] at hex
-    subst hex
-    simp only [frag, arrsOK, Bool.and_eq_true, decide_eq_true_eq] at hfr
-    obtain ⟨⟨hc1, hcn⟩, hxb⟩ := hfr
-    subst hxb
-    simp only [Stmt.wt] at hwt
-    split at hwt
-    · rename_i hw
-      obtain ⟨harr, hkt, hwi, hty, hwe⟩ := hw
-      have hcd : T.cnts.getD arr 1 = cnt := by simp [List.getD, hcn]
-      have he : iv.toNat < T.cnts.getD arr 1 := by rw [hcd]; omega
-      simp only [funcstmt, lowerE_eq T.S.cs hp.jump] at hext hits ⊢
-      have ge := exprOut_good T.S.cs c e
-      have hl2 : (exprOut T.S.cs c e).ctx.lastid ≤
-          (lowerAddr T.S.cs (c.upd (exprOut T.S.cs c e).ctx).slots (c.upd (exprOut T.S.cs c e).ctx).ctx
-            (c.slots.getD arr 0) t idx).ctx.lastid :=
-        (lowerAddr_good T.S.cs (c.upd (exprOut T.S.cs c e).ctx).slots (c.upd (exprOut T.S.cs c e).ctx).ctx
-          (c.slots.getD arr 0) t idx).1
-      have hpre : ∀ j, j < nd → T.σ.getD j 0 = c.slots.getD j 0 := fun j hj => hext.1 j (by
-        show j < c.slots.length; rw [hp.nslots]; exact hj)
-      have hfut : ∀ k, nd ≤ k → k < T.vtys.length →
-          (lowerAddr T.S.cs (c.upd (exprOut T.S.cs c e).ctx).slots (c.upd (exprOut T.S.cs c e).ctx).ctx
-            (c.slots.getD arr 0) t idx).ctx.lastid < T.σ.getD k 0 := fun k hk hkv =>
-        hext.2 k (by show c.slots.length ≤ k; rw [hp.nslots]; exact hk) hkv
-      have hl1 := ge.lastid
-      unf at hl1
-      -- the value
-      have hext1 : Ext T (c.upd (exprOut T.S.cs c e).ctx) := by
-        constructor
-        · intro j hj; exact hext.1 j hj
-        · intro k hk hkv
-          have := hfut k (by rw [← hp.nslots]; exact hk) hkv
-          show (exprOut T.S.cs c e).ctx.lastid < _
-          omega
-      have hits1 : T.S.its = pre ++ (exprOut T.S.cs c e).items ++
-          ((lowerAddr T.S.cs (c.upd (exprOut T.S.cs c e).ctx).slots (c.upd (exprOut T.S.cs c e).ctx).ctx
-            (c.slots.getD arr 0) t idx).items ++
-            [.ins (.op none (.store (storeOf t)) [(exprOut T.S.cs c e).val,
-              (lowerAddr T.S.cs (c.upd (exprOut T.S.cs c e).ctx).slots (c.upd (exprOut T.S.cs c e).ctx).ctx
-                (c.slots.getD arr 0) t idx).val])] ++ post) := by
-        rw [hits]; simp only [List.append_assoc]
-      obtain ⟨n1, env1, r, hreach1, inv1, hfr1, hval1, hrep1⟩ := sim_exprOut T hp e hext1 hwe hevv hits1 inv
-      rw [hty] at hrep1
-      have hrgv := evalE_inRange T.S.cs (T.vtys.take nd) s
-        (fun j t' v' ht hv' => inv.range j t' v' (take_sub ht).1 hv') e v hwe hevv
-      rw [hty] at hrgv
-      -- the address
-      obtain ⟨a, M', ha1, hst, habound, inv2⟩ := inv1.storeAt hkt he hrgv (storeVal_of_rep hrep1)
-      have hvars : VarsIn (setM T.S M) c.slots (T.vtys.take nd) s env1 := by
-        intro i t' v' ht hv'
-        obtain ⟨ht', hi⟩ := take_sub ht
-        obtain ⟨a'', r', h1, h2, h3⟩ := inv1.varsIn i t' v' ht' hv'
-        exact ⟨a'', r', by rw [← hpre i hi]; exact h1, h2, h3⟩
-      have hrange : ∀ (i : Nat) (t' : CSem.Ty) (v' : Int), (T.vtys.take nd)[i]? = some t' →
-          s[i]? = some (some v') → InRange (t'.intTy T.S.cs) v' :=
-        fun i t' v' ht hv' => inv.range i t' v' (take_sub ht).1 hv'
-      have hits2 : T.S.its = (pre ++ (exprOut T.S.cs c e).items) ++
-          (lowerAddr T.S.cs (c.upd (exprOut T.S.cs c e).ctx).slots (c.upd (exprOut T.S.cs c e).ctx).ctx
-            (c.slots.getD arr 0) t idx).items ++
-          (.ins (.op none (.store (storeOf t)) [(exprOut T.S.cs c e).val,
-              (lowerAddr T.S.cs (c.upd (exprOut T.S.cs c e).ctx).slots (c.upd (exprOut T.S.cs c e).ctx).ctx
-                (c.slots.getD arr 0) t idx).val]) :: post) := by
-        rw [hits]; simp only [List.append_assoc, List.singleton_append]
-      have hslot : env1[tmpName (c.slots.getD arr 0)]? = some ⟨.l, a⟩ := by rw [← hpre arr harr]; exact ha1
-      obtain ⟨n2, env2, ra, hreach2, hfr2, hval2, hra⟩ := sim_addr T c.slots (T.vtys.take nd) s M hrange
-        (c.upd (exprOut T.S.cs c e).ctx).ctx (c.slots.getD arr 0) t idx iv a hwi hev hiv.1 habound hits2
-        (ge.cur T.S.o0 pre hp.cur) (ge.curOK hp.curOK)
-        (fun i t' ht => Nat.le_trans (hp.le i (take_sub ht).2) hl1) hvars hslot
-        (Nat.le_trans (hp.le arr harr) hl1)
-      -- the store
-      have hval1' : readVal T.S.p env2 (exprOut T.S.cs c e).val = .ok r := by
-        rw [readVal_agree ge.val hfr2.agree]; exact hval1
-      have hraeq : (⟨.l, ra⟩ : RVal).asL = .ok (UInt64.ofNat (a.toNat + iv.toNat * t.size)) := by
-        rw [← hra]; simp
-      have hx := hst ⟨.l, ra⟩ hraeq
-      have hr3 := run_nores T hits2 (readVals_two hval1' hval2) hx
-      have hfrall : Frame c.lastid (lowerAddr T.S.cs (c.upd (exprOut T.S.cs c e).ctx).slots
-          (c.upd (exprOut T.S.cs c e).ctx).ctx (c.slots.getD arr 0) t idx).ctx.lastid env1 env2 :=
-        Frame.mono hfr2 hl1 (Nat.le_refl _)
-      have inv3 : SInv T.M0 T.S.cs T.cnts T.σ T.vtys
-          (s.set (ecell arr (xbase T.cnts arr) iv.toNat) (some v)) env2 M' :=
-        inv2.env (slots_kept hp hpre hfut hfrall)
-      refine ⟨hp.jump, n1 + n2 + 1, env2, M', ?_, inv3⟩
-      have := (hreach1.trans hreach2).trans hr3
-      simp only [List.append_assoc, List.singleton_append, List.cons_append, List.nil_append] at this ⊢
-      exact this
-    · cases hwt
-  · cases hex
-
 end
 
 end CprocVerif.LowerMach2
